@@ -437,7 +437,7 @@ pub fn run_c16(ctx: &Ctx) -> ! {
     let mut rep = Report::new(
         ctx,
         "exploration",
-        "complete finite domains: all 65 536 16-bit codes through StatusCode::from_u16 / IppHeader::status_code / is_success - the header-level decoding for protocol versions {1.1, 1.0, 2.0, 2.1, 2.2, 0.0, 3.0, ff.ff} x request-id {1, 0, 2^32-1}, on headers built in memory and on parsed responses - and through Operation::from_u16; all 256 bytes through DelimiterTag::from_u8 and ValueTag::from_u8; i32 -1..=300 through PrinterState, JobState, Orientation, PrintQuality, Finishings; IppValue::to_tag of each kind; against registry tables typed in from RFC 8010/8011, PWG 5100.1 and the CUPS specification (identifier names compared after normalisation); and the success classification as the repository's command-line tool reports it: ipputil print against a loopback printer answering Print-Job with 825 status codes (0-2, every code of 0x0100-0x03ff, all named errors, far codes), exit status 0 <=> successful. distinct = (table, code); non-trivial = code present in the registry",
+        "complete finite domains: all 65 536 16-bit codes through StatusCode::from_u16 / IppHeader::status_code / is_success - the header-level decoding for protocol versions {1.1, 1.0, 2.0, 2.1, 2.2, 0.0, 3.0, ff.ff} x request-id {1, 0, 2^32-1}, on headers built in memory and on parsed responses - and through Operation::from_u16; all 256 bytes through DelimiterTag::from_u8 and ValueTag::from_u8; i32 -1..=300 through PrinterState, JobState, Orientation, PrintQuality, Finishings; IppValue::to_tag of each kind; against registry tables typed in from RFC 8010/8011, PWG 5100.1 and the CUPS specification (identifier names compared after normalisation); the readiness helper's status gate for all 65 536 codes with and without a printer group; and the success classification as the repository's command-line tool reports it: ipputil print against a loopback printer answering Print-Job with 825 status codes (0-2, every code of 0x0100-0x03ff, all named errors, far codes), exit status 0 <=> successful. distinct = (table, code); non-trivial = code present in the registry",
     );
     rep.assume("registry tables R2 in vmc::registry were typed in correctly from the RFCs");
     let mut st = Stats::new();
@@ -572,6 +572,27 @@ pub fn run_c16(ctx: &Ctx) -> ! {
         let v = IppValue::Other { tag: t, data: Default::default() };
         if v.to_tag() != t {
             st.violate("to_tag", format!("Other{{tag:{:#04x}}} is tagged {:#04x}", t, v.to_tag()), json!({"table": "to_tag", "kind": "other", "code": t}));
+        }
+    }
+    // ... and as the readiness helper reports it: for every status code, a response without a printer group and one
+    // with a healthy printer group (idle, reasons none) - outside the successful class the answer must be the status
+    // error, never Ok(_)
+    for c in 0..=0xffffu32 {
+        for with_group in [false, true] {
+            st.evaluations += 1;
+            let mut r = IppRequestResponse::new_response(IppVersion::v1_1(), StatusCode::SuccessfulOk, 1);
+            r.header_mut().operation_or_status = c as u16;
+            if with_group {
+                r.attributes_mut().add(DelimiterTag::PrinterAttributes, IppAttribute::new("printer-state", IppValue::Enum(3)));
+                r.attributes_mut().add(DelimiterTag::PrinterAttributes, IppAttribute::new("printer-state-reasons", IppValue::Keyword("none".into())));
+            }
+            let got = ipp::util::is_printer_ready(&r);
+            let case = json!({"table": "is_printer_ready", "code": c, "printer_group": with_group});
+            match got {
+                Ok(_) if c >= 0x100 => st.violate("is_printer_ready:error-status-reported-as-ok", format!("status {:#06x} with{} a printer group: the readiness helper returned {:?} instead of the status error", c, if with_group { "" } else { "out" }, got), case),
+                Err(_) if c <= 2 => st.violate("is_printer_ready:successful-status-reported-as-error", format!("status {:#06x}: the readiness helper returned {:?}", c, got), case),
+                _ => {}
+            }
         }
     }
     st.traces = st.evaluations;
